@@ -9,6 +9,7 @@ package main
 
 import (
 	"context"
+	"encoding/base64"
 	"encoding/json"
 	"errors"
 	"fmt"
@@ -40,6 +41,7 @@ type toolSpec struct {
 	Args    []argSpec
 	Annot   int    // 0 none, 1 title only, 2 all hints, 3 some hints false
 	Outcome string // echo, error, iserror, nilcontent, image, audio, resource, multi, empty-text, nan
+	Gen     int    `json:",omitempty"` // registration generation (history part): shows in the answer which handler ran
 }
 
 type promptSpec struct {
@@ -47,11 +49,22 @@ type promptSpec struct {
 	Desc    string
 	Args    []argSpec
 	Outcome string // echo, error, empty, image, resource
+	Gen     int    `json:",omitempty"`
 }
 
 type resSpec struct {
 	URI, Name, Mime, Desc string
-	Outcome               string // text, blob, empty-text, error, multi, multi-empty
+	Outcome               string // text, blob, empty-text, error (single content handler); multi, multi-empty, multi-one, multi-nil (RegisterResources)
+	Gen                   int    `json:",omitempty"`
+}
+
+// who names the handler of one registration: the entry's name, plus the generation when the history part registers
+// the same name more than once.
+func who(name string, gen int) string {
+	if gen == 0 {
+		return name
+	}
+	return fmt.Sprintf("%s#g%d", name, gen)
 }
 
 type regSpec struct {
@@ -112,6 +125,12 @@ func genSpec(rng *rand.Rand) regSpec {
 func bptr(b bool) *bool { return &b }
 
 func registerTool(in *kit.Instance, t toolSpec) {
+	tool, h := buildTool(t)
+	in.RegisterTool(tool, h)
+}
+
+// buildTool makes the definition and the handler of one tool specification.
+func buildTool(t toolSpec) (*mcp.Tool, kit.ToolFn) {
 	var opts []mcp.ToolOption
 	if t.Desc != "" {
 		opts = append(opts, mcp.WithDescription(t.Desc))
@@ -148,8 +167,8 @@ func registerTool(in *kit.Instance, t toolSpec) {
 		opts = append(opts, mcp.WithToolAnnotations(&mcp.ToolAnnotations{ReadOnlyHint: bptr(false), DestructiveHint: bptr(false)}))
 	}
 	outcome := t.Outcome
-	name := t.Name
-	in.RegisterTool(mcp.NewTool(name, opts...), func(ctx context.Context, req *mcp.CallToolRequest) (*mcp.CallToolResult, error) {
+	name := who(t.Name, t.Gen)
+	return mcp.NewTool(t.Name, opts...), func(ctx context.Context, req *mcp.CallToolRequest) (*mcp.CallToolResult, error) {
 		args, _ := json.Marshal(req.Params.Arguments)
 		if canonEmptyArgs.Load() && len(req.Params.Arguments) == 0 {
 			args = []byte("{}")
@@ -175,7 +194,7 @@ func registerTool(in *kit.Instance, t toolSpec) {
 			return &mcp.CallToolResult{Content: []mcp.Content{mcp.NewTextContent("x")}, StructuredContent: map[string]interface{}{"v": nanValue()}}, nil
 		}
 		return mcp.NewTextResult(name + " got " + string(args)), nil
-	})
+	}
 }
 
 // canonEmptyArgs: in the CLIENT part the three clients encode "no arguments" differently on the wire (member omitted
@@ -186,12 +205,17 @@ var canonEmptyArgs atomic.Bool
 func nanValue() float64 { z := 0.0; return z / z }
 
 func registerPrompt(in *kit.Instance, p promptSpec) {
+	pr, h := buildPrompt(p)
+	in.RegisterPrompt(pr, h)
+}
+
+func buildPrompt(p promptSpec) (*mcp.Prompt, kit.PromptFn) {
 	pr := &mcp.Prompt{Name: p.Name, Description: p.Desc}
 	for _, a := range p.Args {
 		pr.Arguments = append(pr.Arguments, mcp.PromptArgument{Name: a.Name, Description: a.Desc, Required: a.Required})
 	}
-	outcome, name := p.Outcome, p.Name
-	in.RegisterPrompt(pr, func(ctx context.Context, req *mcp.GetPromptRequest) (*mcp.GetPromptResult, error) {
+	outcome, name := p.Outcome, who(p.Name, p.Gen)
+	return pr, func(ctx context.Context, req *mcp.GetPromptRequest) (*mcp.GetPromptResult, error) {
 		args, _ := json.Marshal(req.Params.Arguments)
 		switch outcome {
 		case "error":
@@ -201,36 +225,62 @@ func registerPrompt(in *kit.Instance, p promptSpec) {
 		case "image":
 			return &mcp.GetPromptResult{Messages: []mcp.PromptMessage{{Role: mcp.RoleAssistant, Content: mcp.NewImageContent("aGk=", "image/png")}}}, nil
 		case "resource":
-			return &mcp.GetPromptResult{Description: "d", Messages: []mcp.PromptMessage{{Role: mcp.RoleUser, Content: mcp.NewEmbeddedResource(mcp.TextResourceContents{URI: "emb://p", Text: "t"})}}}, nil
+			uri := "emb://p"
+			if name != pr.Name { // history part: say which registration this handler belongs to
+				uri = "emb://" + name
+			}
+			return &mcp.GetPromptResult{Description: "d", Messages: []mcp.PromptMessage{{Role: mcp.RoleUser, Content: mcp.NewEmbeddedResource(mcp.TextResourceContents{URI: uri, Text: "t"})}}}, nil
 		}
 		return &mcp.GetPromptResult{Description: name, Messages: []mcp.PromptMessage{{Role: mcp.RoleUser, Content: mcp.NewTextContent(name + " got " + string(args))}}}, nil
-	})
+	}
 }
 
 func registerRes(in *kit.Instance, x resSpec) {
+	rs, single, multi := buildRes(x)
+	if multi != nil {
+		in.RegisterResources(rs, multi)
+		return
+	}
+	in.RegisterResource(rs, single)
+}
+
+// multiRes: the outcomes that are registered through RegisterResources (a handler returning several contents).
+func multiRes(outcome string) bool { return strings.HasPrefix(outcome, "multi") }
+
+// buildRes makes the definition and the handler of one resource specification; exactly one of the two handlers is
+// non-nil (single content: RegisterResource, several contents: RegisterResources).
+func buildRes(x resSpec) (*mcp.Resource, kit.ResourceFn, kit.ResourcesFn) {
 	rs := &mcp.Resource{URI: x.URI, Name: x.Name, MimeType: x.Mime, Description: x.Desc}
 	uri, outcome := x.URI, x.Outcome
-	switch outcome {
-	case "multi", "multi-empty":
-		in.RegisterResources(rs, func(ctx context.Context, req *mcp.ReadResourceRequest) ([]mcp.ResourceContents, error) {
-			if outcome == "multi-empty" {
-				return []mcp.ResourceContents{}, nil
-			}
-			return []mcp.ResourceContents{mcp.TextResourceContents{URI: uri, Text: "one"}, mcp.BlobResourceContents{URI: uri + "#b", Blob: "AAEC", MIMEType: "application/octet-stream"}}, nil
-		})
-	default:
-		in.RegisterResource(rs, func(ctx context.Context, req *mcp.ReadResourceRequest) (mcp.ResourceContents, error) {
-			switch outcome {
-			case "blob":
-				return mcp.BlobResourceContents{URI: uri, Blob: "AAEC"}, nil
-			case "empty-text":
-				return mcp.TextResourceContents{URI: uri, Text: ""}, nil
-			case "error":
-				return nil, errors.New("resource " + uri + " failed")
-			}
-			return mcp.TextResourceContents{URI: uri, Text: "text of " + uri, MIMEType: "text/plain"}, nil
-		})
+	mark, blob := "", "AAEC"
+	if x.Gen != 0 {
+		mark = fmt.Sprintf("#g%d", x.Gen)
+		blob = base64.StdEncoding.EncodeToString([]byte(who(x.URI, x.Gen)))
 	}
+	if multiRes(outcome) {
+		return rs, nil, func(ctx context.Context, req *mcp.ReadResourceRequest) ([]mcp.ResourceContents, error) {
+			switch outcome {
+			case "multi-empty":
+				return []mcp.ResourceContents{}, nil
+			case "multi-nil":
+				return nil, nil
+			case "multi-one":
+				return []mcp.ResourceContents{mcp.TextResourceContents{URI: uri, Text: "only one" + mark}}, nil
+			}
+			return []mcp.ResourceContents{mcp.TextResourceContents{URI: uri, Text: "one" + mark}, mcp.BlobResourceContents{URI: uri + "#b", Blob: blob, MIMEType: "application/octet-stream"}}, nil
+		}
+	}
+	return rs, func(ctx context.Context, req *mcp.ReadResourceRequest) (mcp.ResourceContents, error) {
+		switch outcome {
+		case "blob":
+			return mcp.BlobResourceContents{URI: uri, Blob: blob}, nil
+		case "empty-text":
+			return mcp.TextResourceContents{URI: uri, Text: ""}, nil
+		case "error":
+			return nil, errors.New("resource " + uri + " failed")
+		}
+		return mcp.TextResourceContents{URI: uri, Text: "text of " + uri + mark, MIMEType: "text/plain"}, nil
+	}, nil
 }
 
 // step is either a request (Body != "") or a registry change (Change != nil), replayed on every configuration.
@@ -519,6 +569,14 @@ func init() {
 		if json.Unmarshal([]byte(os.Getenv("C14_SPEC")), &spec) == nil {
 			applySpec(in, spec)
 		}
+		// history part: the same registry operations, through the stdio server's own methods
+		var hist []histOp
+		if h := os.Getenv("C14_HIST"); h != "" && json.Unmarshal([]byte(h), &hist) == nil {
+			ap := newApplier(in)
+			for _, o := range hist {
+				ap.apply(o)
+			}
+		}
 	}
 }
 
@@ -549,115 +607,157 @@ func generatedClients(r *vh.Run, nSpecs int) {
 	defer canonEmptyArgs.Store(false)
 	for si := 1; si <= nSpecs; si++ {
 		spec := genSpec(r.Rand(fmt.Sprintf("c14-spec-%d", si)))
-		type cl struct {
-			name string
-			c    *kit.LibClient
-			in   *kit.Instance
+		clientRound(r, ctx, "generated", si, spec, nil, r.Rand(fmt.Sprintf("c14-clientops-%d", si)))
+	}
+}
+
+// clientRound: one registry — a specification and, in the history part, registry operations applied on top of it
+// through each server kind's own methods — served to the five clients; the value every operation returns is compared.
+func clientRound(r *vh.Run, ctx context.Context, scen string, si int, spec regSpec, hist []histOp, rng *rand.Rand) {
+	type cl struct {
+		name string
+		c    *kit.LibClient
+		in   *kit.Instance
+	}
+	var cls []cl
+	for _, kind := range []kit.Kind{kit.SJSON, kit.SSSE, kit.SLJSON, kit.LSSE} {
+		in := kit.Start(kind, kit.Opts{})
+		applySpec(in, spec)
+		ap := newApplier(in)
+		for _, o := range hist {
+			ap.apply(o)
 		}
-		var cls []cl
-		for _, kind := range []kit.Kind{kit.SJSON, kit.SSSE, kit.SLJSON, kit.LSSE} {
-			in := kit.Start(kind, kit.Opts{})
-			applySpec(in, spec)
-			c, err := in.NewClient()
-			if err != nil {
-				r.Fatal("client: %v", err)
-			}
-			cls = append(cls, cl{"client@" + string(kind), c, in})
+		c, err := in.NewClient()
+		if err != nil {
+			r.Fatal("client: %v", err)
 		}
-		sb, _ := json.Marshal(spec)
-		if sc, err := kit.NewStdioClient("c14gen", map[string]string{"C14_SPEC": string(sb)}, 30*time.Second); err == nil {
-			cls = append(cls, cl{"client@stdio", sc, nil})
-		} else {
-			r.Fatal("stdio client: %v", err)
-		}
-		okInit := true
-		for _, c := range cls {
-			if _, err := c.c.Initialize(ctx, &mcp.InitializeRequest{}); err != nil {
-				r.Violation("C14|client|generated|initialize|"+c.name, err.Error(), map[string]interface{}{"registry": spec})
-				okInit = false
-			}
-		}
-		type op struct {
-			name string
-			run  func(c mcp.Connector) (interface{}, error)
-		}
-		ops := []op{
-			{"ListTools", func(c mcp.Connector) (interface{}, error) { return c.ListTools(ctx, &mcp.ListToolsRequest{}) }},
-			{"ListPrompts", func(c mcp.Connector) (interface{}, error) { return c.ListPrompts(ctx, &mcp.ListPromptsRequest{}) }},
-			{"ListResources", func(c mcp.Connector) (interface{}, error) { return c.ListResources(ctx, &mcp.ListResourcesRequest{}) }},
-		}
-		rng := r.Rand(fmt.Sprintf("c14-clientops-%d", si))
-		for _, t := range spec.Tools {
-			t := t
-			for _, mode := range []string{"typed", "nil", "empty"} {
-				var args map[string]interface{}
-				switch mode {
-				case "typed":
-					args = map[string]interface{}{}
-					for _, a := range t.Args {
-						var v interface{}
-						_ = json.Unmarshal([]byte(validValue(a.Type, rng)), &v)
-						args[a.Name] = v
-					}
-				case "empty":
-					args = map[string]interface{}{}
-				}
-				a := args
-				ops = append(ops, op{fmt.Sprintf("CallTool|outcome=%s|args=%s", t.Outcome, mode), func(c mcp.Connector) (interface{}, error) {
-					rq := &mcp.CallToolRequest{}
-					rq.Params.Name = t.Name
-					rq.Params.Arguments = a
-					return c.CallTool(ctx, rq)
-				}})
-			}
-		}
-		for _, p := range spec.Prompts {
-			p := p
-			args := map[string]string{}
-			for _, a := range p.Args {
-				args[a.Name] = "v-" + a.Name
-			}
-			ops = append(ops, op{fmt.Sprintf("GetPrompt|outcome=%s", p.Outcome), func(c mcp.Connector) (interface{}, error) {
-				rq := &mcp.GetPromptRequest{}
-				rq.Params.Name = p.Name
-				rq.Params.Arguments = args
-				return c.GetPrompt(ctx, rq)
-			}})
-		}
-		for _, x := range spec.Res {
-			x := x
-			ops = append(ops, op{fmt.Sprintf("ReadResource|outcome=%s", x.Outcome), func(c mcp.Connector) (interface{}, error) {
-				rq := &mcp.ReadResourceRequest{}
-				rq.Params.URI = x.URI
-				return c.ReadResource(ctx, rq)
-			}})
-		}
-		if okInit {
-			for _, o := range ops {
-				var ref string
-				for i, c := range cls {
-					v, err := o.run(c.c)
-					r.Eval(1)
-					norm := normClient(v, err)
-					if i == 0 {
-						ref = norm
-						continue
-					}
-					if norm != ref {
-						r.Violation(fmt.Sprintf("C14|client|generated|%s|%s-vs-%s|%s", o.name, cls[0].name, c.name, diffClass(strings.Replace(ref, "value:", "result:", 1), strings.Replace(norm, "value:", "result:", 1))),
-							fmt.Sprintf("generated registry #%d, operation %s: %s returned %s, %s returned %s", si, o.name, cls[0].name, short(ref), c.name, short(norm)), map[string]interface{}{"registry": spec})
-					} else {
-						r.Distinct("client|generated|" + o.name + "|" + c.name)
-					}
-				}
-			}
-			r.Count("generated_client_operations", int64(len(ops)))
-		}
+		cls = append(cls, cl{"client@" + string(kind), c, in})
+	}
+	sb, _ := json.Marshal(spec)
+	env := map[string]string{"C14_SPEC": string(sb)}
+	if hist != nil {
+		env["C14_HIST"] = js(hist)
+	}
+	if sc, err := kit.NewStdioClient("c14gen", env, 30*time.Second); err == nil {
+		cls = append(cls, cl{"client@stdio", sc, nil})
+	} else {
+		r.Fatal("stdio client: %v", err)
+	}
+	defer func() {
 		for _, c := range cls {
 			c.c.Close()
 			if c.in != nil {
 				c.in.Close()
 			}
 		}
+	}()
+	// what is looked at: every name of the specification and every name the history touched (with the last
+	// specification registered under it)
+	var witness interface{} = map[string]interface{}{"registry": spec}
+	if hist != nil {
+		var hl []string
+		spec, hl = specAfter(spec, hist)
+		witness = map[string]interface{}{"names_looked_at": spec, "history": hl}
 	}
+	for _, c := range cls {
+		if _, err := c.c.Initialize(ctx, &mcp.InitializeRequest{}); err != nil {
+			r.Violation("C14|client|"+scen+"|initialize|"+c.name, err.Error(), witness)
+			return
+		}
+	}
+	type op struct {
+		name string
+		run  func(c mcp.Connector) (interface{}, error)
+	}
+	ops := []op{
+		{"ListTools", func(c mcp.Connector) (interface{}, error) { return c.ListTools(ctx, &mcp.ListToolsRequest{}) }},
+		{"ListPrompts", func(c mcp.Connector) (interface{}, error) { return c.ListPrompts(ctx, &mcp.ListPromptsRequest{}) }},
+		{"ListResources", func(c mcp.Connector) (interface{}, error) { return c.ListResources(ctx, &mcp.ListResourcesRequest{}) }},
+	}
+	for _, t := range spec.Tools {
+		t := t
+		for _, mode := range []string{"typed", "nil", "empty"} {
+			var args map[string]interface{}
+			switch mode {
+			case "typed":
+				args = map[string]interface{}{}
+				for _, a := range t.Args {
+					var v interface{}
+					_ = json.Unmarshal([]byte(validValue(a.Type, rng)), &v)
+					args[a.Name] = v
+				}
+			case "empty":
+				args = map[string]interface{}{}
+			}
+			a := args
+			ops = append(ops, op{fmt.Sprintf("CallTool|outcome=%s|args=%s", t.Outcome, mode), func(c mcp.Connector) (interface{}, error) {
+				rq := &mcp.CallToolRequest{}
+				rq.Params.Name = t.Name
+				rq.Params.Arguments = a
+				return c.CallTool(ctx, rq)
+			}})
+		}
+	}
+	for _, p := range spec.Prompts {
+		p := p
+		args := map[string]string{}
+		for _, a := range p.Args {
+			args[a.Name] = "v-" + a.Name
+		}
+		ops = append(ops, op{fmt.Sprintf("GetPrompt|outcome=%s", p.Outcome), func(c mcp.Connector) (interface{}, error) {
+			rq := &mcp.GetPromptRequest{}
+			rq.Params.Name = p.Name
+			rq.Params.Arguments = args
+			return c.GetPrompt(ctx, rq)
+		}})
+	}
+	for _, x := range spec.Res {
+		x := x
+		ops = append(ops, op{fmt.Sprintf("ReadResource|outcome=%s", x.Outcome), func(c mcp.Connector) (interface{}, error) {
+			rq := &mcp.ReadResourceRequest{}
+			rq.Params.URI = x.URI
+			return c.ReadResource(ctx, rq)
+		}})
+	}
+	// history part: a registry that diverged shows in every later operation of the same family; per round, client and
+	// family (List* / CallTool / GetPrompt / ReadResource of that kind of entry) only the first divergence is reported
+	reported := map[string]bool{}
+	for _, o := range ops {
+		var ref string
+		for i, c := range cls {
+			v, err := o.run(c.c)
+			r.Eval(1)
+			norm := normClient(v, err)
+			if i == 0 {
+				ref = norm
+				continue
+			}
+			if norm != ref {
+				if hist != nil {
+					fk := c.name + "|" + clientFamily(o.name)
+					if reported[fk] {
+						r.Count("history_client_follow_up_divergences(not reported again)", 1)
+						continue
+					}
+					reported[fk] = true
+				}
+				r.Violation(fmt.Sprintf("C14|client|%s|%s|%s-vs-%s|%s", scen, o.name, cls[0].name, c.name, diffClass(strings.Replace(ref, "value:", "result:", 1), strings.Replace(norm, "value:", "result:", 1))),
+					fmt.Sprintf("%s registry #%d, operation %s: %s returned %s, %s returned %s", scen, si, o.name, cls[0].name, short(ref), c.name, short(norm)), witness)
+			} else {
+				r.Distinct("client|" + scen + "|" + o.name + "|" + c.name)
+			}
+		}
+	}
+	r.Count(scen+"_client_operations", int64(len(ops)))
+}
+
+// clientFamily: the kind of registry entry a client operation looks at.
+func clientFamily(op string) string {
+	switch {
+	case strings.HasSuffix(op, "Tools") || strings.HasPrefix(op, "CallTool"):
+		return "tools"
+	case strings.HasSuffix(op, "Prompts") || strings.HasPrefix(op, "GetPrompt"):
+		return "prompts"
+	}
+	return "resources"
 }
